@@ -1206,7 +1206,8 @@ class PhasedVcfWriter(VcfAugmenter):
             if pos == prev_pos:
                 # duplicate position, skip it
                 continue
-            is_snv = len(str(record.ref)) == 1 and len(str(record.alts[0])) == 1
+            # Same test as in VcfReader: every ALT allele has to be a single base
+            is_snv = len(str(record.ref)) == 1 and all(len(str(alt)) == 1 for alt in record.alts)
             if self._only_snvs and not is_snv:
                 continue
 
